@@ -109,6 +109,9 @@ type State struct {
 	dead   bool
 	events []string
 	panics []*panicRec
+	callRes  map[string][]Value // contract-applied calls on this path: "<callee>#<n>" -> results
+	callArgs map[string][]Value
+	callN    map[string]int
 	extRes []replayVar      // results chosen by the environment (assumed-contract calls) on this path
 	defs   map[string]*Term // atomic term (printed) -> defining term, from assumed equations
 	bnd    *boundCtx
@@ -129,6 +132,16 @@ func (st *State) clone() *State {
 	n.trace = append([]string{}, st.trace...)
 	n.events = append([]string{}, st.events...)
 	n.extRes = append([]replayVar{}, st.extRes...)
+	n.callRes, n.callArgs, n.callN = map[string][]Value{}, map[string][]Value{}, map[string]int{}
+	for k, v := range st.callRes {
+		n.callRes[k] = v
+	}
+	for k, v := range st.callArgs {
+		n.callArgs[k] = v
+	}
+	for k, v := range st.callN {
+		n.callN[k] = v
+	}
 	if st.bnd != nil {
 		n.bnd = &boundCtx{lo: map[string]*big.Int{}, hi: map[string]*big.Int{}, lin: append([]*Term{}, st.bnd.lin...)}
 		for k, v := range st.bnd.lo {
@@ -289,7 +302,7 @@ func (st *State) recordDef(t *Term) {
 		return
 	}
 	pick := func(x, y *Term) bool {
-		if !isAtomic(x) || occurs(x.String(), y) {
+		if !isAtomic(x) || x.Op == "int" || x.Op == "str" || x.Op == "bool" || occurs(x.String(), y) {
 			return false
 		}
 		if st.defs == nil {
@@ -301,7 +314,7 @@ func (st *State) recordDef(t *Term) {
 	// prefer eliminating fresh (engine-generated) symbols
 	af := strings.Contains(a.String(), "!")
 	bf := strings.Contains(b.String(), "!")
-	if isAtomic(a) && isAtomic(b) {
+	if isAtomic(a) && isAtomic(b) && a.Op != "int" && a.Op != "str" && b.Op != "int" && b.Op != "str" {
 		if bf && !af {
 			pick(b, a)
 		} else if af {
